@@ -88,13 +88,40 @@ let protocol_ok (sums : (fsum * string) list) (bad : bool) : bool =
   | [ (f, "n") ] -> f.f_pending = [] && f.f_incr = [] && f.f_completed = []     (* a plain, non-incremental response *)
   | _ -> List.for_all (fun (_, hn) -> hn <> "n") sums && stream_ok_b (List.map fst sums)
 
+(* Flush boundaries: (flushes (fl FR...)... (foreign n)) -> per Flush the frame summaries it handed over *)
+let flushes_of (x : sexp) : fsum list list * bool * int =
+  match x with
+  | L (A "flushes" :: l) ->
+    let bad = ref false and foreign = ref 0 in
+    let fl = List.filter_map (function
+      | L (A "fl" :: frs) ->
+        Some (List.filter_map (function
+          | L [A "fr"; L (A "p" :: p); L (A "i" :: i); L (A "c" :: c); L [A "hn"; A hn]] ->
+            (* an absent hasNext (a plain response) is never the final frame of a stream *)
+            Some { f_pending = ids p; f_incr = ids i; f_completed = ids c; f_hasnext = (hn <> "f") }
+          | L [A "bad"] -> bad := true; None
+          | x -> raise (Sexp_error ("flush frame: " ^ print_sexp x))) frs)
+      | L [A "foreign"; A n] -> foreign := int_of_string n; None
+      | x -> raise (Sexp_error ("flush: " ^ print_sexp x))) l in
+    (fl, !bad, !foreign)
+  | _ -> raise (Sexp_error "flushes")
+
+(* the verdict of the extracted checker flushes_ok_b on the implementation's Flush boundaries *)
+let flushes_verdict (x : sexp) : string option =
+  let (fl, bad, foreign) = flushes_of x in
+  if foreign > 0 then Some (Printf.sprintf "%d writer call(s) arrived while a Flush was in progress" foreign)
+  else if bad then None   (* bytes that are no JSON document: frames_whole reports them *)
+  else if flushes_ok_b fl then None
+  else Some (Printf.sprintf "flushes_ok_b rejects the Flush boundaries: frames per Flush [%s]"
+               (String.concat ";" (List.map (fun l -> string_of_int (List.length l)) fl)))
+
 let go_fails = function
   | L (A "go" :: l) -> List.map (function L [A clause; S detail] -> (clause, detail) | x -> raise (Sexp_error ("go: " ^ print_sexp x))) l
   | _ -> raise (Sexp_error "go")
 
 let handle_spec (rest : sexp list) : (string * string) list =
   match rest with
-  | [ _cfg; _useed; _op; _vars; _picks; frames; L [A "term"; term]; L [A "compl"; A _]; L [A "ndefer"; A _]; go; L [A "nt"; nt] ] ->
+  | [ _cfg; _useed; _op; _vars; _picks; frames; flushes; L [A "term"; term]; L [A "compl"; A _]; L [A "ndefer"; A _]; go; L [A "nt"; nt] ] ->
     let (sums, bad) = sums_of frames in
     let res = ref [] in
     let add s d = res := (s, d) :: !res in
@@ -103,7 +130,12 @@ let handle_spec (rest : sexp list) : (string * string) list =
     let no_frames = sums = [] && not bad in
     let coq_ok = if no_frames then not go_protocol_failed else protocol_ok sums bad && sbool term in
     List.iter (fun (c, d) -> add "specfail" (c ^ " " ^ d)) fails;
-    if (not coq_ok) && not go_protocol_failed && not (List.exists (fun (c, _) -> c = "frames_whole") fails) then
+    let go_flush_failed = List.exists (fun (c, _) -> c = "flush_atomic") fails in
+    (match flushes_verdict flushes with
+     | Some why when not go_flush_failed -> add "specfail" ("flush_atomic " ^ why)
+     | None when go_flush_failed -> add "error" "the harness-side Flush check fails but flushes_ok_b accepts"
+     | _ -> ());
+    if (not coq_ok) && not go_protocol_failed && not go_flush_failed && not (List.exists (fun (c, _) -> c = "frames_whole") fails) then
       add "specfail" "stream_protocol the extracted checker stream_ok_b rejects the frame sequence";
     if coq_ok && go_protocol_failed then
       add "error" "the harness-side protocol check fails but stream_ok_b accepts";
@@ -115,14 +147,18 @@ let show_frames l = String.concat " | " l
 let handle_corr (rest : sexp list) : (string * string) list =
   match rest with
   | [ L (A "descs" :: ds); L [A "tree"; tree]; L [A "root"; root]; L [A "data"; data]; L (A "trace" :: tr);
-      L (A "frames" :: gframes); sums; L [A "mode"; A _mode]; L [A "valid"; valid]; L [A "status"; A status];
+      L (A "frames" :: gframes); sums; flushes; L (A "fail" :: hardfail); L [A "window"; _window]; L [A "mode"; A _mode]; L [A "valid"; valid]; L [A "status"; A status];
       L [A "compl"; A compl]; L (A "nofetch" :: nofetch); go; L [A "recon"; recon]; L [A "mut"; S _]; L [A "panic"; S pmsg] ] ->
     let descs = List.map desc_of ds in
     let t = match tree with L [A "none"] -> None | L [A "some"; x] -> Some (dtree_of x) | _ -> raise (Sexp_error "tree") in
     let r = dnode_of root and j = json_of data in
-    let trace = List.map (function
-      | L [A "f"; A g] -> AFetch (n_of_int (int_of_string g))
-      | L [A "r"; A g] -> ARender (n_of_int (int_of_string g))
+    (* (x g): the fetch phase of g failed hard (ResolveDeferError, outside the model): such runs are not compared
+       with the model; the specification still runs on the implementation's frames and Flush boundaries *)
+    let failing = hardfail <> [] in
+    let trace = List.filter_map (function
+      | L [A "f"; A g] -> Some (AFetch (n_of_int (int_of_string g)))
+      | L [A "r"; A g] -> Some (ARender (n_of_int (int_of_string g)))
+      | L [A "x"; A _] -> None
       | x -> raise (Sexp_error ("action: " ^ print_sexp x))) tr in
     let res = ref [] in
     let add s d = res := (s, d) :: !res in
@@ -131,6 +167,7 @@ let handle_corr (rest : sexp list) : (string * string) list =
     let gfr = List.map str gframes in
     let torn = ref false in
     (if status = "panic" then add "mismatch" ("corr:C10/panic implementation panicked: " ^ pmsg)
+     else if failing then ()
      else match exec descs r t j trace with
        | None -> add "mismatch" ("corr:C10/order the observed completion order is not a run of the model LTS: " ^ print_sexp (L tr))
        | Some mframes ->
@@ -140,7 +177,7 @@ let handle_corr (rest : sexp list) : (string * string) list =
     (* on data that needs no completion the straight-line renderer of Spec.v (the one the
        reconstruction theorems are about) must give the same frames, and the client-side merge of
        its frames must give the completion of the erased plan *)
-    let clean = wf && clean_b r j && strict_clean r j [] in
+    let clean = wf && not failing && clean_b r j && strict_clean r j [] in
     (if clean && status = "ok" then begin
        let order = List.filter_map (function ARender g -> find_desc descs g | _ -> None) trace in
        let cfr = List.map (fun f -> string_of_bytes (frame_bytes f)) (c_stream descs r j order) in
@@ -160,11 +197,16 @@ let handle_corr (rest : sexp list) : (string * string) list =
     let pok = protocol_ok s bad && status = "ok" && compl = "1" in
     if wf then begin
       List.iter (fun (c, d) -> add "specfail" (c ^ " " ^ d)) fails;
+      let go_flush_failed = List.exists (fun (c, _) -> c = "flush_atomic") fails in
+      (match flushes_verdict flushes with
+       | Some why when not go_flush_failed -> add "specfail" ("flush_atomic " ^ why)
+       | None when go_flush_failed -> add "error" "the harness-side Flush check fails but flushes_ok_b accepts"
+       | _ -> ());
       if (not pok) && fails = [] then add "specfail" "stream_protocol stream_ok_b rejects the frame sequence";
       (* reconstruction: merge of the implementation's frames against the completion of the erased plan *)
       (* on data that needs no completion (strict_clean; __skipErrors markers suppress errors but not
          the null bubbling, so "no error reported" alone is not enough) *)
-      (match (if strict_clean r j [] then complete_root (fun _ _ -> false) (erase r) j else (None, [])) with
+      (match (if strict_clean r j [] && not failing then complete_root (fun _ _ -> false) (erase r) j else (None, [])) with
        | (Some expected, []) ->
          (match recon with
           | L [A "some"; rj] ->
@@ -177,6 +219,7 @@ let handle_corr (rest : sexp list) : (string * string) list =
     end;
     let ndefer = List.length descs in
     let detail = (if ndefer >= 2 then "nt" else "tr") ^ (if wf then "" else " malformed") ^ (if !torn then " torn" else "")
+                 ^ (if failing then " hardfail" else "")
                  ^ (if clean then " clean" else "") in
     if !res = [] then [("ok", detail)] else List.rev !res
   | _ -> [("error", "unrecognised c10corr case")]
